@@ -13,7 +13,10 @@
 //                                  source src, first frames announce len bytes; ParseMessages() after every frame
 //       probe p1 p2 ...            = msg 0 p1, msg 1 p1, msg 0 p2, ... reported on one line
 //       hold bus 0|1               1: frames of msg/tp/fp/probe only arrive in the driver (output "queued"), nothing is polled
-//       poll bus                   one ParseMessages() (reads at most 20 waiting frames)
+//       poll bus                   one ParseMessages() (reads as many waiting frames as the library's batch size allows)
+//       drain bus                  ParseMessages() until the driver is empty (a frame that is never read is a lost message)
+//       batch ?                    written as "batch <n>": n = frames one ParseMessages() call takes from the driver, MEASURED on the
+//                                  node at start-up (the property leaves it open); tells the model, no effect on the real code
 //       mode bus bit 0|1           SetForwardSystemMessages (bit 1) / SetForwardOnlyKnownMessages (2) / SetForwardOwnMessages (3) /
 //                                  SetHandleOnlyKnownMessages (4)
 // output of msg/tp/fp/poll:  "cb=<times the plain callback ran> h=<ids in call order|->"
@@ -156,13 +159,21 @@ static bool sameSeq(const std::vector<Call> &g, const std::vector<Call> &e) {
 }
 static std::string seqStr(const std::vector<Call> &v) { std::string r; for (auto &c : v) { char t[40]; snprintf(t, sizeof t, "%s%lu/%u", r.empty() ? "" : ",", c.pgn, c.src); r += t; } return r.empty() ? "-" : r; }
 
-// one ParseMessages() of bus b.  The reference handles the (at most 20) oldest waiting frames and so knows the messages E this
-// call completes, in order.  Oracle (from the property): the callback (if set) and every handler attached to b and registered
+// one ParseMessages() of bus b.  How many of the waiting frames a call takes from the driver is left open by the property (it is
+// observed: driver queue length before - after); the reference handles exactly the frames taken, oldest first, and so knows the
+// messages E this call must pass on, in order: a frame taken from the driver and not handled shows as a missed message.  Oracle (from the property): the callback (if set) and every handler attached to b and registered
 // for PGN 0 or the message's PGN get exactly E restricted to their PGN, in order, each message with its PGN and source; nobody
 // else is called.
 static void pollBus(Res &res, int b) {
+  calls.clear(); cbCalls[0].clear(); cbCalls[1].clear();
+  g_now++;
+  size_t before = bus[b]->rxq.size();
+  bus[b]->ParseMessages();
+  bus[b]->sent.clear();
+  size_t taken = before - bus[b]->rxq.size();
+  if (before != refQ[b].size()) C.fail("harness:queue-desync", "driver %zu reference %zu", before, refQ[b].size());
   std::vector<Call> E; std::string cls;
-  for (int k = 0; k < 20 && !refQ[b].empty(); k++) {
+  for (size_t k = 0; k < taken && !refQ[b].empty(); k++) {
     RefFrame f = refQ[b].front(); refQ[b].pop_front();
     if (cls.empty()) cls = f.cls; else if (cls != f.cls) cls = "mixed";
     bool done = false;
@@ -176,10 +187,6 @@ static void pollBus(Res &res, int b) {
     if (done) E.push_back({-1, f.pgn, f.src});
   }
   if (cls.empty()) cls = "empty-poll";
-  calls.clear(); cbCalls[0].clear(); cbCalls[1].clear();
-  g_now++;
-  bus[b]->ParseMessages();
-  bus[b]->sent.clear();
   res.cb += (int)(cbCalls[0].size() + cbCalls[1].size());
   for (auto &c : calls) res.ids.push_back(c.h);
   C.count("polls"); C.count("messages_completed", (long)E.size()); if (E.size() > 1) C.count("polls_completing_several_messages");
@@ -218,7 +225,10 @@ static tNMEA2000::tMsgHandler *mk(int h, unsigned long p, tNMEA2000 *n) {
   return h % 3 == 0 ? (tNMEA2000::tMsgHandler *)new HA(h, p, n) : h % 3 == 1 ? (tNMEA2000::tMsgHandler *)new HB(h, p, n) : (tNMEA2000::tMsgHandler *)new HC(h, p, n);
 }
 
-static void exec(const std::string &line) {
+static unsigned long batchSize = 20;   // measured in main()
+static void exec(const std::string &line0) {
+  std::string line = line0;
+  if (line.compare(0, 5, "batch") == 0) line = "batch " + std::to_string(batchSize);   // also in replays: the value of THIS build
   std::vector<std::string> w = split(line);
   C.op("%s", line.c_str());
   if (w.empty()) { C.out("bad-op"); return; }
@@ -333,6 +343,15 @@ static void exec(const std::string &line) {
     if (refQ[b].size() > 20) C.count("polls_with_more_than_20_frames_waiting");
     Res r; pollBus(r, b); C.outs(fmt(r)); return;
   }
+  if (w[0] == "drain" && w.size() == 2) {
+    int b = bid(1);
+    if (b < 0) { C.out("bad-op"); return; }
+    Res r; int n = 0;
+    do { pollBus(r, b); n++; } while (!refQ[b].empty() && n < 400);
+    if (!refQ[b].empty()) { C.fail("C14:missed:frames-never-read", "%zu frames still wait in the driver of bus %d after %d ParseMessages() calls", refQ[b].size(), b, n); refQ[b].clear(); bus[b]->rxq.clear(); }
+    C.outs(fmt(r)); return;
+  }
+  if (w[0] == "batch" && w.size() == 2) { C.out("ok"); return; }
   if (w[0] == "mode" && w.size() == 4) {
     int b = bid(1);
     if (b < 0 || !isNum(2) || num(2) < 1 || num(2) > 4 || !isNum(3) || num(3) > 1) { C.out("bad-op"); return; }
@@ -402,7 +421,7 @@ static std::string fpLine(Rng &R, int b, unsigned long pgn, unsigned src, unsign
 // damaged and intact fast packets observed by the callback, all-PGN handlers and PGN handlers on both buses
 static void fpCase(Rng &R, int nops) {
   static const unsigned long fpp[] = {129029UL, 129540UL, 130816UL};
-  exec(S("reset 0 %lu 0 %lu %lu", fpp[0], fpp[1], fpp[2]));
+  exec(S("reset 0 %lu 0 %lu %lu", fpp[0], fpp[1], fpp[2])); exec("batch ?");
   for (int h = 0; h < 5; h++) exec(S("attach %d %d", h, h == 2 ? 1 : (int)R.below(NBUS)));
   exec("attach 0 0"); exec("cb 0 1"); exec("cb 1 1");
   unsigned seq = (unsigned)R.below(8);
@@ -427,7 +446,7 @@ static unsigned tpDst(Rng &R) { unsigned k = (unsigned)R.below(4); return k < 2 
 // be passed on exactly once, by that or a later poll
 static void burstCase(Rng &R) {
   const unsigned long pg[] = {127488UL, 130306UL, 129025UL, 65300UL, 127250UL};
-  exec(S("reset 0 %lu %lu 0 %lu", pg[0], pg[1], 129029UL));
+  exec(S("reset 0 %lu %lu 0 %lu", pg[0], pg[1], 129029UL)); exec("batch ?");
   for (int h = 0; h < 5; h++) exec(S("attach %d %d", h, h == 3 ? 1 : (int)R.below(NBUS)));
   exec("attach 0 0"); exec("attach 3 1"); exec("cb 0 1"); if (R.chance(1, 2)) exec("cb 1 1");
   int b = (int)R.below(NBUS);
@@ -439,9 +458,10 @@ static void burstCase(Rng &R) {
     else if (r < 85) { exec(fpLine(R, b, 129029UL, 0x51, (unsigned)R.range(0, 45), seq++, R.chance(2, 3) ? 0 : (int)R.range(1, NDMG - 1))); queued += lastFpFrames; }
     else if (r < 92) { unsigned len = TPLEN[R.below(sizeof TPLEN / sizeof TPLEN[0])]; exec(S("tp %d %lu %u %u", b, R.chance(1, 2) ? 129029UL : 130820UL, len, tpDst(R))); queued += 1 + (int)((len + 6) / 7); }
     else if (r < 96) exec(S("msg %d %lu", 1 - b, pg[R.below(5)]));     // the other bus is polled as usual
-    else if (queued > 20) { exec(S("poll %d", b)); queued -= 20; }
+    else if (queued > 20) exec(S("poll %d", b));
   }
-  for (int k = 0; k < (queued + 19) / 20 + 1; k++) exec(S("poll %d", b));
+  if (R.chance(1, 2)) exec(S("poll %d", b));
+  exec(S("drain %d", b)); exec(S("poll %d", b));
   exec(S("hold %d 0", b)); exec(S("msg %d %lu", b, pg[0]));
   C.count("burst_cases");
 }
@@ -449,7 +469,7 @@ static void burstCase(Rng &R) {
 // every announced payload length incl. the largest message the library holds (223 bytes), broadcast (BAM) and addressed (RTS) to
 // the node itself and to somebody else
 static void tpCase(Rng &R) {
-  exec(S("reset 0 %lu %lu 0 %lu %lu", 129029UL, 130820UL, TP_CM_PGN, TP_DT_PGN));
+  exec(S("reset 0 %lu %lu 0 %lu %lu", 129029UL, 130820UL, TP_CM_PGN, TP_DT_PGN)); exec("batch ?");
   for (int h = 0; h < 6; h++) exec(S("attach %d %d", h, h == 3 ? 1 : h == 0 ? 0 : (int)R.below(NBUS)));
   exec("cb 0 1"); exec("cb 1 1");
   for (unsigned len : TPLEN) for (unsigned dst : {255u, nodeAddr, 77u}) {
@@ -464,7 +484,7 @@ static void tpCase(Rng &R) {
 // unknown PGNs by every path (single frame, fast packet, transport protocol)
 static void modeCase(Rng &R, int nops) {
   const unsigned long pg[] = {127488UL, 65300UL, 65301UL, 61184UL, 129029UL, 130816UL, 59904UL, 126720UL};
-  exec(S("reset 0 0 %lu %lu %lu %lu", pg[0], pg[1], pg[4], pg[5]));
+  exec(S("reset 0 0 %lu %lu %lu %lu", pg[0], pg[1], pg[4], pg[5])); exec("batch ?");
   for (int h = 0; h < 6; h++) exec(S("attach %d %d", h, h == 1 ? 1 : h == 0 ? 0 : (int)R.below(NBUS)));
   exec("cb 0 1"); exec("cb 1 1");
   unsigned seq = 0;
@@ -482,7 +502,7 @@ static void randomCase(Rng &R, int len) {
   static const unsigned long pool[] = {0, 0, 127488UL, 127488UL, 130306UL, 59904UL, 60928UL, TP_CM_PGN, TP_DT_PGN, 129029UL, 65280UL, 126992UL, 126208UL, 59392UL, 1UL << 16};
   static const unsigned long msgPool[] = {127488UL, 130306UL, 59904UL, 60928UL, TP_CM_PGN, TP_DT_PGN, 129029UL, 65280UL, 126992UL, 59392UL, 0UL, 126996UL, 61184UL, 130816UL, 1UL << 16};
   const size_t NP = sizeof pool / sizeof pool[0], NM = sizeof msgPool / sizeof msgPool[0];
-  exec("reset");
+  exec("reset"); exec("batch ?");
   int nh = (int)R.range(1, MAXH);
   size_t np = (size_t)R.range(2, (int64_t)NP);      // small pools give many equal PGNs
   for (int i = 0; i < len; i++) {
@@ -516,11 +536,18 @@ int main(int argc, char **argv) {
     if (!bus[b]->isOpen()) C.fail("harness:not-open", "bus %d", b);
   }
   nodeAddr = bus[1]->GetN2kSource();
+  { // measure how many waiting frames one ParseMessages() call takes from the driver (lone TP.DT frames: they have no effect)
+    unsigned char d[8] = {1, 0xff, 0xff, 0xff, 0xff, 0xff, 0xff, 0xff};
+    for (int i = 0; i < 300; i++) bus[0]->rx(canId(7, TP_DT_PGN, 0x23, 255), 8, d);
+    bus[0]->ParseMessages();
+    batchSize = 300 - bus[0]->rxq.size(); if (batchSize == 300) batchSize = 1000000;
+    bus[0]->rxq.clear(); bus[0]->sent.clear();
+  }
   if (!C.replay.empty()) { for (auto &l : readLines(C.replay)) exec(l); endCase(); C.finish(); return 0; }
   Rng R(C.seed * 0x2545F4914F6CDD1DULL + 0x14);
   const unsigned long a = 127488UL, bb = 130306UL, other = 129025UL;
   // fixed scenarios named in the property
-  for (const char *s : {"reset", "new 0 0", "new 1 127488", "attach 0 0", "attach 1 0", "attach 1 0", "msg 0 127488", "attach 1 1", "msg 0 127488", "msg 1 127488",
+  for (const char *s : {"reset", "batch ?", "new 0 0", "new 1 127488", "attach 0 0", "attach 1 0", "attach 1 0", "msg 0 127488", "attach 1 1", "msg 0 127488", "msg 1 127488",
                         "destroy 1", "msg 1 127488", "new 1 127488 0", "cb 0 1", "msg 0 59904", "msg 0 60928", "msg 1 59904", "msg 1 60928", "msg 0 60416", "msg 0 60160",
                         "tp 0 127488", "tp 1 129029", "detach 0 1", "msg 0 127488", "msg 0 0", "attach 0 0",
                         "fp 0 129029 81 20 64,65,66", "fp 0 129029 81 20 96,98", "fp 0 129029 81 20 97,98", "fp 0 129029 81 20 128,129,129,130",
@@ -529,7 +556,7 @@ int main(int argc, char **argv) {
   {
     std::string q = "hold 0 1"; exec(q);
     for (int i = 0; i < 45; i++) exec(S("msg 0 %lu", i % 3 == 0 ? 127488UL : i % 3 == 1 ? 130306UL : 129025UL));
-    for (int i = 0; i < 4; i++) exec("poll 0");
+    exec("poll 0"); exec("drain 0"); exec("poll 0");
     exec("hold 0 0");
   }
   for (int i = 0; i < (C.thorough ? 60 : 12); i++) burstCase(R);
